@@ -146,6 +146,12 @@ def noise_kinds(c, f):
         ("nack-section", [("rx", m_ack(c, f, 1, 4), "noise")], False),
         ("ack-odd", [("rx", m_ack(c, f, 1, 0x11), "noise")], False),
         ("other-ioa-call", [("rx", m_callfile(c, other), "noise"), ("rx", m_callsec(c, other, 1), "noise")], False),
+        # requests naming ANOTHER file of the same station (same CA and file type, other IOA): refused, the running transfer is untouched
+        ("other-ioa-callfile", [("rx", m_callfile(c, other), "noise")], True),
+        ("other-ioa-callsec", [("rx", m_callsec(c, other, 1), "noise")], True),
+        ("other-ioa-callsec2", [("rx", m_callsec(c, other, 2), "noise")], True),
+        ("other-ioa-callsec-neg", [("rx", m_callsec(c, other, 1, neg=True), "noise")], True),
+        ("other-ioa-callsec2-neg", [("rx", m_callsec(c, other, 2, neg=True), "noise")], True),
         ("other-conn-ack", [("rx2", m_ack(c, f, 1, 3), "noise")], False),
         ("deactivate", [("rx", c.asdu(122, 13, f.ca, f.ioa, nof2(f.nof) + bytes([0, 3])), "noise")], False),
         ("fileready-in", [("rx", m_fileready(c, f, 10), "noise")], False),
@@ -205,8 +211,8 @@ def oracle_download(c, f, steps, out, good, lines=None):
             w = prod.split()
             if w[0] in ("rx", "rx2") and w[1] != "-":
                 d0 = c.parse(bytes.fromhex(w[1]))
-                if d0 and d0["tid"] == 122 and d0["cot"] == 13 and not d0["pn"] and len(d0.get("body", b"")) >= 4 and d0["body"][3] == 6 and grp[-1].startswith("st TRANSMIT"):
-                    marks[pos] = d0["body"][2]
+                if d0 and d0["tid"] == 122 and d0["cot"] == 13 and not d0["pn"] and len(d0.get("body", b"")) >= 4 and d0["body"][3] == 6 and grp[-1].startswith("st TRANSMIT") and body_matches(d0, f):
+                    marks[pos] = d0["body"][2]        # (a call naming another file is not this master restarting a section of this one)
                 # the outcome told to the provider must be the one the master acknowledged
                 if d0 and d0["tid"] == 124 and len(d0.get("body", b"")) >= 4:
                     afq = d0["body"][3]
@@ -462,7 +468,10 @@ def run(ck):
                     {"script": lines, "c": o["out"][max(0, i - 2):i + 2], "model": mo[max(0, i - 2):i + 2]})
         bad = oracle_download(c, f, steps, o["out"], good, lines) if d == "dl" else oracle_upload(c, f, steps, o["out"], good)
         for clause, text in bad[:2]:
-            ck.fail("input", "oracle:%s:%s" % (d, clause), "%s (scenario %s)" % (text, sid), {"script": lines, "observed": [l[:160] for l in o["out"] if l[:2] in ("cb", "st")][-12:]})
+            # "success although incomplete" is an open finding for requests that name the file being transferred; the signature carries the
+            # class of scenario so that the same outcome reached another way (e.g. by a request for ANOTHER file) is a new violation
+            sig = "oracle:%s:%s" % (d, clause) + (":" + cls if clause == "success-incomplete" else "")
+            ck.fail("input", sig, "%s (scenario %s)" % (text, sid), {"script": lines, "observed": [l[:160] for l in o["out"] if l[:2] in ("cb", "st")][-12:]})
         if any(l.startswith("tx c0 7d") or l.startswith("cb segment") for l in o["out"]):
             ck.nontriv((d, cls, c.cot, c.ca, c.ioa, c.mx, tuple(f.lens) if ".noise." not in sid else ()))
         if len(ck.samples) < 6 and (sid.endswith(".0") or ".sz.223.249" in sid or "callsec-neg" in sid):
